@@ -25,6 +25,11 @@ def one(pid):
     env = dict(os.environ, VERIF_SEED=a.seed)
     r = subprocess.run(["./check", pid, "--tier", a.tier], cwd=V, capture_output=True, text=True, env=env)
     out = r.stdout + r.stderr
+    if r.returncode != 0:
+        d = Path("/tmp/status_logs"); d.mkdir(exist_ok=True)
+        (d / ("%s-%s-%s.txt" % (pid, a.tier, a.seed))).write_text(out)
+        for f in (V / "build" / "replay").glob(pid + "-*"):
+            (d / ("%s-%s-%s-%s" % (pid, a.tier, a.seed, f.name))).write_bytes(f.read_bytes())
     viol = [l for l in out.splitlines() if l.startswith("VIOLATION")]
     known = [l for l in out.splitlines() if l.startswith("KNOWN-FINDING")]
     ev = {}
